@@ -1,6 +1,6 @@
 (* Lemmas about Model/BlockAnalysis.v. *)
 From Coq Require Import List Bool ZArith Lia Arith Sorting.Sorted Sorting.Permutation.
-From Splinkv Require Import Base.TV Base.GroupBy Base.CumSum Model.Blocking Model.BlockAnalysis.
+From Splinkv Require Import Base.TV Base.GroupBy Base.CumSum Model.Blocking Model.BlockAnalysis Proofs.BlockingP.
 Import ListNotations.
 Local Open Scope Z_scope.
 
@@ -396,4 +396,32 @@ Proof.
   rewrite (map_nth mk), combine_nth by (unfold cum_asc; rewrite run_sum_length; reflexivity).
   unfold cum_asc. rewrite run_sum_nth by exact Hi. cbn [mk row_count cumulative_rows start cartesian_count fst snd].
   pose proof (sumZ_firstn_S counts i Hi). repeat split; lia.
+Qed.
+
+(* ------------------------------------------------------------------ readable meanings *)
+Lemma key_match_iff :
+  forall a b, key_match a b = true <-> exists k, a = Some k /\ b = Some k.
+Proof.
+  intros [x|] [y|]; cbn; split; try discriminate; try (intros (k & H1 & H2); discriminate).
+  - intros H. apply eqk_lex in H. subst. eauto.
+  - intros (k & H1 & H2). injection H1 as ->. injection H2 as ->. apply eqk_lex. reflexivity.
+Qed.
+
+Lemma owner_is_first_true_rule :
+  forall (rec : Type) (rules : list (rec -> rec -> tv)) n l r,
+    owner_is rec 0 rules n l r = true <->
+    (exists rk, nth_error rules n = Some rk /\ rk l r = T) /\
+    (forall j rj, (j < n)%nat -> nth_error rules j = Some rj -> rj l r <> T).
+Proof.
+  intros rec rules n l r. rewrite owner_is_iff. split.
+  - intros H. apply first_true_least in H. rewrite Nat.sub_0_r in H. tauto.
+  - intros [(rk & Hn & Ht) Hmin].
+    destruct (first_true 0 rules l r) as [m|] eqn:E.
+    + pose proof (first_true_least _ _ _ _ _ _ E) as (_ & (rm & Hm & Htm) & Hlt). rewrite Nat.sub_0_r in *.
+      destruct (Nat.lt_trichotomy m n) as [Hc|[->|Hc]]; [|reflexivity|].
+      * exfalso. eapply Hmin; eauto.
+      * exfalso. eapply Hlt; eauto.
+    + exfalso. assert (Hex : exists rk, In rk rules /\ rk l r = T).
+      { exists rk. split; [eapply nth_error_In; eauto|exact Ht]. }
+      apply (first_true_some_iff _ 0) in Hex. destruct Hex as [m Hm]. congruence.
 Qed.
